@@ -343,7 +343,7 @@ Proof.
   apply H3. reflexivity.
 Qed.
 
-Definition total {A} (r : res A) : Prop := r <> Panic /\ r <> OutOfFuel.
+Definition total {A} (r : res A) : Prop := safe r.
 
 Lemma total_ok {A} (a : A) : total (Ok a). Proof. split; discriminate. Qed.
 Lemma total_err {A} : total (@Err A). Proof. split; discriminate. Qed.
@@ -358,8 +358,8 @@ Proof.
   assert (Hb : blen (a ++ suf) <? DOMAIN_LEN = false).
   { apply N.ltb_ge. unfold blen. rewrite app_length, Hl. rewrite domain_len_pinned. lia. }
   rewrite Hb.
-  assert (Hlen : (length (a ++ suf) - N.to_nat DOMAIN_LEN)%nat = length a).
-  { rewrite app_length, Hl, domain_len_pinned. change (N.to_nat 12) with 12%nat. lia. }
+  assert (Hlen : (length (a ++ suf) - Pos.to_nat 12)%nat = length a).
+  { rewrite app_length, Hl. change (Pos.to_nat 12) with 12%nat. lia. }
   rewrite Hlen.
   rewrite (slice_ok (a ++ suf) 0 (length a)).
   2:{ lia. }
@@ -436,6 +436,12 @@ Proof.
   eapply nca_substr; [exact Ha|apply valid_nca; exact Hv].
 Qed.
 
+Lemma nth_error_skipn' {A} : forall n (l : list A) k, nth_error (skipn n l) k = nth_error l (n + k).
+Proof.
+  induction n as [|n IH]; intros l k; [reflexivity|].
+  destruct l as [|x l]; [destruct k; reflexivity|]. simpl. apply IH.
+Qed.
+
 Lemma find_rpar_ge2 rest ep : find_sub [RPAR] (SPC :: LPAR :: rest) = Some ep -> (2 <= ep)%nat.
 Proof.
   simpl. unfold RPAR, SPC, LPAR. simpl.
@@ -465,7 +471,7 @@ Proof.
   { apply prefixb_spec in R as [t R]. exists t. exact R. }
   destruct Hsk as [r2 Hsk]. rewrite Hsk in F. apply find_rpar_ge2 in F.
   assert (PE : nth_error (skipn pp first) (ep + 0) = Some RPAR) by (eapply prefixb_skipn_nth; [exact Fp|reflexivity]).
-  rewrite Nat.add_0_r in PE. rewrite nth_error_skipn in PE.
+  rewrite Nat.add_0_r in PE. rewrite nth_error_skipn' in PE.
   pose proof (nth_error_lt _ _ _ PE) as LE.
   replace (length first =? 0)%nat with false by (symmetry; apply Nat.eqb_neq; lia).
   destruct (pp + ep =? length first - 1)%nat eqn:EQ; [|apply total_ok].
@@ -545,7 +551,7 @@ Proof.
   simpl in Ha. apply andb_true_iff in Ha as [H1 H2].
   change ((x :: a) ++ y :: b) with (x :: (a ++ y :: b)).
   cbn [nca]. rewrite (IH b y H2 Hb Hy), andb_true_r.
-  destruct a as [|z a']; simpl app.
+  destruct a as [|z a']; simpl app; cbv iota.
   - rewrite Hy. apply orb_true_r.
   - exact H1.
 Qed.
@@ -564,18 +570,22 @@ Proof.
   replace (a' <? 128) with true by (symmetry; apply N.ltb_lt; exact H'). reflexivity.
 Qed.
 
+Lemma nca_cons2 x y l : nca (x :: y :: l) = (negb (x <? 128) || negb (cont y)) && nca (y :: l).
+Proof. reflexivity. Qed.
+
 Lemma nca_escape : forall s x, nca (x :: s) = true -> nca (x :: escape_label s) = true.
 Proof.
   induction s as [|a t IH]; intros x H; [exact H|].
   unfold escape_label. cbn [flat_map]. fold (escape_label t).
-  cbn [nca] in H. apply andb_true_iff in H as [H1 H2].
+  rewrite nca_cons2 in H. apply andb_true_iff in H as [H1 H2].
   destruct ((a =? DOT) || (a =? BSL)) eqn:E.
   - assert (Ca : cont a = false).
     { apply orb_true_iff in E as [E|E]; apply N.eqb_eq in E; subst a; reflexivity. }
-    simpl app. cbn [nca]. rewrite Ca. simpl.
-    replace (cont BSL) with false by reflexivity. rewrite orb_true_r. simpl.
-    rewrite orb_true_r. simpl. fold (nca (a :: escape_label t)). apply IH. exact H2.
-  - simpl app. cbn [nca]. rewrite H1. simpl. fold (nca (a :: escape_label t)). apply IH. exact H2.
+    change ([BSL; a] ++ escape_label t) with (BSL :: a :: escape_label t).
+    rewrite !nca_cons2. rewrite Ca. change (cont BSL) with false.
+    rewrite !orb_true_r. simpl andb. apply IH. exact H2.
+  - change ([a] ++ escape_label t) with (a :: escape_label t).
+    rewrite nca_cons2, H1. simpl andb. apply IH. exact H2.
 Qed.
 
 Lemma wfs_escape s : wfs s -> wfs (escape_label s).
@@ -600,7 +610,7 @@ Proof.
   destruct (rfind_sub sub_marker ty) as [i|] eqn:R; simpl; [|apply valid_wfs; exact Hv].
   apply rfind_sub_some in R.
   assert (P5 : nth_error ty (i + 5) = Some DOT) by (eapply prefixb_skipn_nth; [exact R|reflexivity]).
-  replace (i + length sub_marker)%nat with (S (i + 5)) by (simpl; lia).
+  change (length sub_marker) with 6%nat. replace (i + 6)%nat with (S (i + 5)) by lia.
   eapply wfs_skipn_after; [apply valid_nca; exact Hv|exact P5|unfold DOT; lia].
 Qed.
 
@@ -784,7 +794,8 @@ Proof.
   unfold strip_dot. rewrite rev_app_distr.
   destruct (rev (x :: b)) as [|c r] eqn:E.
   - exfalso. apply (f_equal (@length N)) in E. rewrite rev_length in E. simpl in E. lia.
-  - simpl app. destruct (c =? DOT); [|reflexivity].
+  - change ((c :: r) ++ rev a) with (c :: (r ++ rev a)). cbv iota.
+    destruct (c =? DOT); [|reflexivity].
     rewrite rev_app_distr, rev_involutive. reflexivity.
 Qed.
 
@@ -837,7 +848,7 @@ Proof.
   unfold normalize_hostname. intros Hw. destruct (ends_with h local_local_suffix).
   - destruct (length h <? 6)%nat; [discriminate|]. unfold slice.
     destruct (_ && _); [|discriminate]. intros H. inversion H; subst.
-    apply firstn_wf. apply skipn_wf. exact Hw.
+    apply firstn_wf. exact Hw.
   - intros H. inversion H; subst. exact Hw.
 Qed.
 
@@ -867,7 +878,7 @@ Proof.
   - apply forallb_Forall. apply forallb_Forall in Lfull. rewrite Ef in Lfull.
     eapply fullname_type_labels. exact Lfull.
   - split.
-    + apply labels_fit_label_ok; [eapply normalize_hostname_wf; eassumption|apply check_label_lengths_ok; exact H2].
+    + apply labels_fit_label_ok; [exact (normalize_hostname_wf host server Whost En)|apply check_label_lengths_ok; exact H2].
     + intros s Hs. subst sub.
       assert (s = ty).
       { unfold split_sub_domain in Hs. destruct (rfind_sub sub_marker ty); simpl in Hs; [inversion Hs; reflexivity|discriminate]. }
@@ -883,23 +894,211 @@ Definition x_tcp : bytes := [95;120;46;95;116;99;112;46;108;111;99;97;108;46].  
 Definition h_local : bytes := [104;46;108;111;99;97;108;46].                      (* h.local. *)
 Definition rep (b : N) (n : nat) : bytes := repeat b n.
 
+(* what "encodable" buys: bounds on every label, and the encoder model cannot panic *)
+Lemma encodable_conclusion name :
+  forallb label_ok (name_labels name) = true ->
+  Forall (fun l => 1 <= blen l /\ blen l <= 63) (name_labels name)
+  /\ forall t pos, exists r, write_name t pos name = Ok r.
+Proof.
+  intros H. split; [apply label_ok_bounds; exact H|].
+  intros t pos. unfold write_name. apply write_labels_total. exact H.
+Qed.
+
+Lemma browse_accepted ty :
+  wf_bytes ty -> api_browse ty = Ok tt ->
+  Forall (fun l => 1 <= blen l /\ blen l <= 63) (name_labels ty)
+  /\ forall t pos, exists r, write_name t pos ty = Ok r.
+Proof. intros W H. apply encodable_conclusion, browse_accepted_encodable; assumption. Qed.
+
+Lemma resolve_accepted h :
+  wf_bytes h -> api_resolve_hostname h = Ok tt ->
+  Forall (fun l => 1 <= blen l /\ blen l <= 63) (name_labels h)
+  /\ forall t pos, exists r, write_name t pos h = Ok r.
+Proof. intros W H. apply encodable_conclusion, resolve_accepted_encodable; assumption. Qed.
+
+Definition enc_ok (name : bytes) : Prop :=
+  Forall (fun l => 1 <= blen l /\ blen l <= 63) (name_labels name)
+  /\ forall t pos, exists r, write_name t pos name = Ok r.
+
+Lemma register_accepted ty nm host tyd sub full server :
+  wf_bytes ty -> wf_bytes nm -> wf_bytes host ->
+  si_names ty nm host = Ok (tyd, sub, full, server) ->
+  api_register ty nm host = Ok tt ->
+  enc_ok full /\ enc_ok tyd /\ enc_ok server /\ (forall s, sub = Some s -> enc_ok s).
+Proof.
+  intros W1 W2 W3 E H.
+  destruct (register_accepted_encodable ty nm host tyd sub full server W1 W2 W3 E H) as (A & B & C & D).
+  repeat split; try (apply encodable_conclusion; assumption).
+  - apply (proj1 (encodable_conclusion s (D s H0))).
+  - apply (proj2 (encodable_conclusion s (D s H0))).
+Qed.
+
+Lemma validators_total s :
+  utf8_valid s = true ->
+  safe (check_domain_suffix s) /\ safe (check_service_name s)
+  /\ (forall lim, safe (check_service_name_length s lim)) /\ safe (check_hostname s)
+  /\ safe (check_label_lengths s) /\ safe (name_change s) /\ safe (hostname_change s)
+  /\ (exists r, normalize_hostname s = Ok r)
+  /\ safe (api_browse s) /\ safe (api_resolve_hostname s).
+Proof.
+  intros H. repeat split;
+    try apply check_domain_suffix_total; try apply (check_service_name_total s H);
+    try apply check_service_name_length_total; try apply check_hostname_total;
+    try apply check_label_lengths_total; try apply (name_change_total s H);
+    try apply (hostname_change_total s H); try apply normalize_hostname_total;
+    try apply api_browse_total; try apply api_resolve_hostname_total.
+Qed.
+
+Lemma register_total ty nm host :
+  utf8_valid ty = true -> utf8_valid nm = true -> utf8_valid host = true ->
+  (exists r, si_names ty nm host = Ok r) /\ safe (api_register ty nm host).
+Proof.
+  intros H1 H2 _. split; [apply si_names_total|apply api_register_total; assumption].
+Qed.
+
+(* the slice `&name[1..]` in check_service_name is reached only behind `starts_with('_')`
+   and is then in range and on a character boundary *)
+Lemma service_label_slice_safe name :
+  nca name = true -> first_is USC name = true -> exists r, slice name 1 (length name) = Ok r.
+Proof.
+  intros Hn F. destruct name as [|x rest]; [discriminate|].
+  simpl in F. apply N.eqb_eq in F. subst x.
+  rewrite slice_ok; [eauto|simpl; lia|lia| |apply boundary_len].
+  eapply nca_boundary_after; [exact Hn|reflexivity|unfold USC; lia].
+Qed.
+
+(* ---- conflict renaming can leave the encodable names ---- *)
+
 (* a 60-byte instance name is accepted by register; the name the conflict handler derives
-   from it has a 64-byte first label *)
+   from it (name_change) has a 64-byte first label, which the encoder refuses with a panic *)
 Lemma rename_refuted :
   exists ty nm host full renamed,
-    api_register ty nm host = Ok tt
+    utf8_valid ty = true /\ utf8_valid nm = true /\ utf8_valid host = true
+    /\ api_register ty nm host = Ok tt
     /\ full = escape_label nm ++ DOT :: ty
     /\ name_change full = Ok renamed
     /\ encodable renamed = false
-    /\ (forall t pos, write_name t pos renamed = Panic).
+    /\ (forall pos, write_name [] pos renamed = Panic).
 Proof.
   exists x_tcp, (rep 97 60), h_local, (escape_label (rep 97 60) ++ DOT :: x_tcp),
          (rep 97 60 ++ [SPC; LPAR; 50; RPAR] ++ DOT :: x_tcp).
-  split; [vm_compute; reflexivity|]. split; [reflexivity|].
-  split; [vm_compute; reflexivity|]. split; [vm_compute; reflexivity|].
-  intros t pos. unfold write_name.
-  replace (name_labels (rep 97 60 ++ [SPC; LPAR; 50; RPAR] ++ DOT :: x_tcp))
-    with [rep 97 60 ++ [SPC; LPAR; 50; RPAR]; [95;120]; [95;116;99;112]; [108;111;99;97;108]]
-    by (vm_compute; reflexivity).
-  cbn [write_labels]. destruct (lookup _ t); [|reflexivity].
-Abort.
+  repeat split; try (intros; vm_compute; reflexivity).
+Qed.
+
+(* the same for the host name: 62 bytes + "-2" *)
+Lemma hostname_rename_refuted :
+  exists host renamed,
+    utf8_valid host = true /\ api_resolve_hostname host = Ok tt
+    /\ api_register x_tcp [105] host = Ok tt
+    /\ hostname_change host = Ok renamed
+    /\ encodable renamed = false
+    /\ (forall pos, write_name [] pos renamed = Panic).
+Proof.
+  exists (rep 104 62 ++ local_suffix), (rep 104 62 ++ [HYP; 50] ++ local_suffix).
+  repeat split; try (intros; vm_compute; reflexivity).
+Qed.
+
+(* ---- names taken from the wire ---- *)
+
+(* wire labels of at most 63 bytes whose presentation the encoder splits into an 81-byte
+   label: 40 bytes + backslash, then 40 bytes *)
+Lemma reencode_refuted :
+  exists ls,
+    forallb wire_label_ok ls = true
+    /\ encodable (present ls) = false
+    /\ (forall pos, write_name [] pos (present ls) = Panic).
+Proof.
+  exists [rep 97 40 ++ [BSL]; rep 98 40; [95;120]; [95;116;99;112]; [108;111;99;97;108]].
+  repeat split; try (intros; vm_compute; reflexivity).
+Qed.
+
+Definition Bnd (n : nat) (acc : list bytes) : Prop := Forall (fun x => (length x <= n)%nat) acc.
+
+Lemma push_label_Bnd n cur acc : (length cur <= n)%nat -> Bnd n acc -> Bnd n (push_label cur acc).
+Proof.
+  intros H1 H2. destruct cur; [exact H2|]. simpl. constructor; assumption.
+Qed.
+
+Lemma pen_nobsl_step n : forall l rest cur acc,
+  ~ In BSL l -> (length cur + length l <= n)%nat -> Bnd n acc ->
+  exists cur' acc', pen (l ++ rest) cur acc = pen rest cur' acc'
+    /\ (length cur' <= length cur + length l)%nat /\ Bnd n acc'.
+Proof.
+  induction l as [|c l IH]; intros rest cur acc Hn Hl Hb.
+  - exists cur, acc. repeat split; [lia|exact Hb].
+  - assert (Hc : (c =? BSL) = false).
+    { apply N.eqb_neq. intros ->. apply Hn. left. reflexivity. }
+    assert (Hn' : ~ In BSL l) by (intros X; apply Hn; right; exact X).
+    simpl length in Hl. change ((c :: l) ++ rest) with (c :: (l ++ rest)). cbn [pen]. rewrite Hc.
+    destruct (c =? DOT).
+    + destruct (IH rest [] (push_label cur acc) Hn') as (cur' & acc' & E & L & B).
+      * simpl. lia.
+      * apply push_label_Bnd; [lia|exact Hb].
+      * exists cur', acc'. repeat split; [exact E|simpl in L; simpl; lia|exact B].
+    + destruct (IH rest (cur ++ [c]) acc Hn') as (cur' & acc' & E & L & B).
+      * rewrite app_length. simpl. lia.
+      * exact Hb.
+      * exists cur', acc'. repeat split; [exact E|rewrite app_length in L; simpl in L; simpl; lia|exact B].
+Qed.
+
+Lemma pen_present_nobsl : forall ls tail acc,
+  Forall (fun l => ~ In BSL l /\ (length l <= 63)%nat) ls ->
+  ~ In BSL tail -> (length tail <= 63)%nat -> Bnd 63 acc ->
+  Bnd 63 (pen (present ls ++ tail) [] acc).
+Proof.
+  induction ls as [|l ls IH]; intros tail acc Hls Ht Hl Hb.
+  - simpl app.
+    destruct (pen_nobsl_step 63 tail [] [] acc Ht) as (cur' & acc' & E & L & B); [simpl; lia|exact Hb|].
+    rewrite app_nil_r in E. rewrite E. simpl. unfold Bnd. apply Forall_rev.
+    apply push_label_Bnd; [simpl in L; lia|exact B].
+  - inversion Hls as [|? ? [Hl1 Hl2] Hls']; subst.
+    unfold present. cbn [flat_map]. fold (present ls). rewrite <- !app_assoc. simpl app.
+    destruct (pen_nobsl_step 63 l (DOT :: present ls ++ tail) [] acc Hl1) as (cur' & acc' & E & L & B);
+      [simpl; lia|exact Hb|].
+    rewrite E. cbn [pen]. replace (DOT =? BSL) with false by reflexivity. rewrite N.eqb_refl.
+    apply IH; [exact Hls'|exact Ht|exact Hl|].
+    apply push_label_Bnd; [simpl in L; lia|exact B].
+Qed.
+
+Lemma strip_dot_snoc a : strip_dot (a ++ [DOT]) = a.
+Proof. unfold strip_dot. rewrite rev_app_distr. simpl. apply rev_involutive. Qed.
+
+Lemma present_snoc ls l : present (ls ++ [l]) = present ls ++ l ++ [DOT].
+Proof. unfold present. rewrite flat_map_app. simpl. rewrite app_nil_r. reflexivity. Qed.
+
+(* names from the wire whose labels contain no backslash re-split into labels no longer than
+   the wire labels (a dot inside a wire label only splits it further) *)
+Lemma reencode_safe_without_backslash ls :
+  Forall (fun l => ~ In BSL l /\ blen l <= 63) ls -> encodable (present ls) = true.
+Proof.
+  intros H.
+  assert (H' : Forall (fun l => ~ In BSL l /\ (length l <= 63)%nat) ls).
+  { eapply Forall_impl; [|exact H]. intros l [A B]. split; [exact A|unfold blen in B; lia]. }
+  clear H. unfold encodable, name_labels, parse_escaped_name.
+  assert (G : Bnd 63 (pen (strip_dot (present ls)) [] [])).
+  { destruct ls as [|l0 ls0]; [simpl; constructor|].
+    destruct (@exists_last _ (l0 :: ls0)) as (ls' & l & E); [discriminate|]. rewrite E in *.
+    apply Forall_app in H' as [H1 H2]. inversion H2 as [|? ? [A B] _]; subst.
+    rewrite present_snoc, !app_assoc, strip_dot_snoc.
+    apply pen_present_nobsl; [exact H1|exact A|exact B|constructor]. }
+  apply forallb_forall. intros l Hl. unfold Bnd in G. rewrite Forall_forall in G.
+  specialize (G l Hl). rewrite write_utf8_assert_pinned. apply N.ltb_lt. unfold blen. lia.
+Qed.
+
+Lemma params_pinned_c15 :
+  (forall n, label_fits n = (n <? 64)) /\ (forall n, write_utf8_assert n = (n <? 64))
+  /\ (forall n, hostname_too_long n = (255 <? n)) /\ DOMAIN_LEN = 12.
+Proof.
+  exact (conj label_fits_pinned (conj write_utf8_assert_pinned (conj hostname_too_long_pinned domain_len_pinned))).
+Qed.
+
+(* the argument checks of register(), as used by the command-queue model (C14) *)
+Lemma register_names_safe ty nm host tyd sub full server :
+  utf8_valid ty = true -> utf8_valid nm = true ->
+  si_names ty nm host = Ok (tyd, sub, full, server) ->
+  safe (api_register_names full server sub).
+Proof.
+  intros Hty Hnm E. apply si_names_fullname in E as (-> & _ & -> & _).
+  apply api_register_names_total. apply wfs_nca.
+  apply wfs_app; [apply wfs_escape, valid_wfs; exact Hnm|apply split_sub_domain_wfs; exact Hty].
+Qed.
